@@ -125,6 +125,9 @@ func equalAfterNumericConversion(value reflect.Value, targetType reflect.Type, t
 		if numericSign(converted) != numericSign(value) {
 			return false
 		}
+	} else if value.Kind() != targetType.Kind() {
+		// e.g. []byte <-> string: a conversion between kinds is not an equality of values
+		return false
 	}
 	return reflect.DeepEqual(converted.Interface(), target)
 }
